@@ -156,8 +156,8 @@ def r2_validate_before_commit(ctx):
             commits.append((n, "shapes recorded"))
     if len(commits) < 3:
         raise AnalysisError("C16.R2", f"anchor vanished: commits of add_individual_parameters ({len(commits)} found)")
-    kinds = {"not isinstance(index, str)": "non-string identifier", "index in self._indices": "duplicate identifier", "not isinstance(individual_parameters, dict)": "non-dictionary",
-             "scalar_type not in valid_scalar_types": "unsupported value type", "self._parameters_shape != pshapes": "inconsistent shapes"}
+    kinds = {("not isinstance(", ", str)"): "non-string identifier", (" in self._indices",): "duplicate identifier", ("not isinstance(", ", dict)"): "non-dictionary",
+             ("scalar_type", " not in "): "unsupported value type", ("self._parameters_shape != ",): "inconsistent shapes"}
     seen = set()
     for r in raises:
         st = cfg.stmt[r]
@@ -165,7 +165,7 @@ def r2_validate_before_commit(ctx):
         gs = cfg.if_guards(r)
         test = U(cfg.stmt[gs[-1][0]].test) if gs else ""
         for k, v in kinds.items():
-            if k in test:
+            if all(tok in test for tok in k):
                 seen.add(v)
         ctx.check(cls == "LeaspyIndividualParamsInputError", "C16.R2", f, st, f"refusal ({test[:50]}) raises LeaspyIndividualParamsInputError",
                   f"refusal raises {cls}, not LeaspyIndividualParamsInputError")
